@@ -5,8 +5,23 @@
 -/
 import SV.Gen.Ctx
 import SV.Model.Iban
+import SV.Model.Obj
+import SV.Gen.Classes
 import SV.Spec.All
 open SV
+
+def parseKind (k : String) : Option (Cls × Option Str) :=
+  if k == "iban" then some (.iban, none)
+  else if k == "bic" then some (.bic, none)
+  else if k == "str" then some (.str, none)
+  else if k.startsWith "bban:" then (parseStr (k.drop 5).toString).map (fun cc => (.bban, some cc))
+  else none
+
+def showCls : Cls → String
+  | .iban => "IBAN" | .bic => "BIC" | .bban => "BBAN" | .str => "str"
+
+def showObj (o : Obj) : String :=
+  showCls o.cls ++ " " ++ showStr o.value ++ " " ++ (match o.country with | some c => showStr c | none => "-")
 
 structure DState where
   R : Registry := []
@@ -141,6 +156,20 @@ def step (st : DState) (line : String) : DState × String :=
       | some a => (st, showRes showBool (a.ref.validate X.U comps ex))
       | none => (st, "none")
     | _, _, _ => bad
+  | ["obj.cmp", k1, s1, k2, s2] =>
+    match parseKind k1, parseStr s1, parseKind k2, parseStr s2 with
+    | some (c1, cc1), some s1, some (c2, cc2), some s2 =>
+      let a := Obj.make X.U c1 cc1 s1
+      let b := Obj.make X.U c2 cc2 s2
+      (st, "ok " ++ " ".intercalate ([pyEq a b, !pyEq a b, pyLt a b, pyLe a b, pyLt b a, pyLe b a,
+        pyHashKey a == pyHashKey b, pyEq a b].map showBool))
+    | _, _, _, _ => bad
+  | ["obj.copy", k, s, how] =>
+    match parseKind k, parseStr s with
+    | some (c, cc), some s =>
+      let o := Obj.make X.U c cc s
+      (st, showRes showObj (if how == "copy" then pyCopy X.U Gen.classFacts o else pyDeepCopy X.U Gen.classFacts o))
+    | _, _ => bad
   | ["json.merge", l, r] =>
     match parseJ l, parseJ r with
     | some (.obj a), some (.obj b) => (st, "ok " ++ showJ (.obj (mergeDicts a b)))
